@@ -95,6 +95,9 @@ type Case struct {
 	// time); SkipC: no third replica (schedule leg: many blocks, two replicas).
 	Repeat int  `json:"repeat,omitempty"`
 	SkipC  bool `json:"skip_c,omitempty"`
+	// TimeOff: seconds added to the header time of block i (default spacing 3 s): proposers'
+	// clocks differ, block times may stand still or go back between consecutive blocks
+	TimeOff []int `json:"time_off,omitempty"`
 }
 
 // ---------------------------------------------------------------------------------------
@@ -231,6 +234,11 @@ func genCase(t *rapid.T) Case {
 			blk = append(blk, genTx(t))
 		}
 		c.Blocks = append(c.Blocks, blk)
+	}
+	if rapid.IntRange(0, 2).Draw(t, "clockSkew") == 0 {
+		for i := 0; i < nb; i++ {
+			c.TimeOff = append(c.TimeOff, rapid.SampledFrom([]int{0, 0, 0, -3, -7, -100, 5, 60}).Draw(t, "timeOff"))
+		}
 	}
 	c.WorkersA = 8
 	if rapid.IntRange(0, 3).Draw(t, "workersA-alt") == 3 {
